@@ -75,6 +75,60 @@ def _determinism(rep, texts, nseeds):
                                        note="concrete runs (hash seed / process dimension is enumerated, not solved)")
 
 
+def _structure_one(text):
+    """Structural oracle: the compiler's parser must give T and its full parenthesisation the same tree."""
+    from .. import parenth
+    from ..cref import CSyntaxError, Unsupported
+    try:
+        t2, n = parenth.paren(text)
+    except (CSyntaxError, Unsupported) as e:
+        return ("gap", str(e)[:80], text, "")
+    except RecursionError:
+        return ("gap", "recursion", text, "")
+    if n == 0:
+        return ("trivial", "", text, t2)
+    try:
+        a = corpus.parse_stmt(text)
+    except Exception as e:  # noqa
+        return ("rejected", type(e).__name__, text, t2)
+    try:
+        b = corpus.parse_stmt(t2)
+    except Exception as e:  # noqa
+        return ("paren-rejected", f"{type(e).__name__}: {str(e)[:120]}", text, t2)
+    if a == b:
+        return ("same", "", text, t2)
+    pa, pb = a.pretty().split("\n"), b.pretty().split("\n")
+    k = next((i for i, (x, y) in enumerate(zip(pa, pb)) if x != y), min(len(pa), len(pb)))
+    return ("differs", f"first difference at tree line {k}: {pa[k].strip() if k < len(pa) else '<end>'!r} vs {pb[k].strip() if k < len(pb) else '<end>'!r}", text, t2)
+
+
+def _structure(rep, tier, progs):
+    """Every family program, a mixed-family sample and every bundled behaviour part against its full parenthesisation."""
+    B = corpus.load_behaviors()
+    texts = list(dict.fromkeys(progs + families.mixed(tier, 1500 if tier == "thorough" else 150, salt=17)))
+    items = [("prog", t) for t in texts] + [(f"insn:{n}/{i}", b) for n in sorted(B) for i, b in enumerate(B[n])]
+    res = framework.pmap(_structure_one, [t for _, t in items], chunksize=8)
+    cnt = {}
+    for (k, _), (v, detail, text, t2) in zip(items, res):
+        cnt[v] = cnt.get(v, 0) + 1
+        key = f"struct:{text}" if k == "prog" else f"struct:{k}"
+        if v == "differs":
+            rep.add(key, "violation", "structure", f"the parser groups the text differently from C: tree(T) != tree(fully parenthesised T); {detail}",
+                    c=text, parenthesised=t2)
+        elif v == "paren-rejected":
+            rep.add(key, "inconclusive", "paren-rejected", f"the fully parenthesised text is rejected by the parser: {detail}")
+        elif v in ("same", "trivial"):
+            rep.add(key, "ok")
+        # gap / rejected: outside the oracle (vector / 128-bit behaviours the reference lexer does not cover; text the parser rejects)
+    rep.coverage["structure_oracle"] = dict(
+        counts=cnt, explanation="an independent precedence-climbing parser (vf/parenth.py, written from the C11 expression grammar) wraps every "
+        "composite sub-expression of T in parentheses, leaving the statement structure as it is; '(' expr ')' is an inlined alternative of "
+        "the compiler's grammar, so a parser that groups as C prescribes gives T and paren(T) the identical tree.  Catches regroupings "
+        "that no value can observe.  No solver involved (tree equality); 'gap' = behaviours outside the reference lexer (HVX vectors, "
+        "128-bit helpers, pointers)")
+    return cnt
+
+
 def run(tier):
     progs = families.c17(tier)
     rng = random.Random(framework.seed())
@@ -94,6 +148,7 @@ def run(tier):
 
     def post(rep, recs):
         _determinism(rep, texts, nseeds)
+        _structure(rep, tier, progs)
     return famcheck.run(
         "C17", tier, [("c17", progs)],
         "all 16x16 ordered pairs of binary operators in 'a OP1 b OP2 c' with operands of three different types (uint8, int16, uint32: "
@@ -102,5 +157,7 @@ def run(tier):
         "without braces, statement-expression vs compound statement, 24 identifier look-alikes of operand tokens, operator tokens "
         "without spaces.  Oracle: an independent precedence-climbing parser + C semantics; the solver shows for every program that "
         "the parse the compiler used yields the C value for all operand values (a mis-grouping C can observe differs for some values). "
-        "Determinism: texts parsed in fresh processes under different PYTHONHASHSEED on fresh and reused parser objects.",
+        "Determinism: texts parsed in fresh processes under different PYTHONHASHSEED on fresh and reused parser objects.  Structure: "
+        "every family program, a mixed-family sample and every bundled behaviour part must parse to the same tree as its full "
+        "parenthesisation by an independent C parser (also catches regroupings no value can observe).",
         wf_clauses=("c10:", "c11:"), post=post)
